@@ -10,6 +10,7 @@ from vf.simk.world import World, CLK_TCK
 
 ID = "C07"
 LEVEL = "exploration"
+ALT_MOUNT = True
 FIELDS = ["user", "nice", "system", "idle", "iowait", "irq", "softirq", "steal", "guest", "guest_nice"]
 BOUND = [0, 1, 99, 2 ** 31 - 1, 2 ** 32, 2 ** 63 - 1, 2 ** 64 - 1]
 D3 = [0, 1, 50]
@@ -333,6 +334,9 @@ def build_cases(thorough):
 
 def run(ctx):
     cases = build_cases(ctx.thorough)
+    if ctx.alt:
+        # second pass with procfs mounted elsewhere: every kind of case, one snapshot pair in eight, no schedules
+        cases = [c for i, c in enumerate(cases) if c[0] != "pair" or i % 8 == 0]
     n = max(1, len(cases) // (ctx.ncpu * 6))
     chunks = [(ctx.seed, cases[i:i + n]) for i in range(0, len(cases), n)]
     res = [r for ch in ctx.pmap_fresh(worker, chunks) for r in ch]
@@ -343,7 +347,7 @@ def run(ctx):
             viols.append({"cause": cause, "msg": msg, "case": list(c), "_idx": _i})
     from vf.checks import c07s
     ctx.close()
-    sres = c07s.run_s(ctx)
+    sres = c07s.run_s(ctx) if not ctx.alt else {"violations": [], "coverage": {"executions": 0, "distinct_outcome_vectors": 0}}
     viols += sres["violations"]
     cov = {"schedules": sres["coverage"], "evaluations": len(cases) + sres["coverage"]["executions"],
            "distinct_nontrivial": len({repr(c) for c in cases}) + sres["coverage"]["distinct_outcome_vectors"],
